@@ -173,10 +173,12 @@ def faces_for(ext, n, kappa):
     return out
 
 
-def solve_once(cls, mms, ext, n, kappa, bckinds, tset, tmode, lam):
+def solve_once(cls, mms, ext, n, kappa, bckinds, tset, tmode, lam, lunit=1.0, order='diff-first'):
+    """lunit: the same problem expressed in another length unit (faces of length-like axes, D, u, boundary a rescaled by their
+    dimension; the oracle stays in the original unit). order: which matrix terms are built first on the shared mesh."""
     faces = faces_for(ext, n, kappa)
     g = Geom(cls, faces)
-    m = gen.build_mesh(pf, cls, faces)
+    m = gen.build_mesh(pf, cls, [f * lunit if AXKIND[cls][k] in ('len', 'rad') else f for k, f in enumerate(faces)])
     nd = g.nd
     adv = 'central' in tset or 'upwind' in tset
     src = 'src' in tset
@@ -196,24 +198,28 @@ def solve_once(cls, mms, ext, n, kappa, bckinds, tset, tmode, lam):
                 c = (a * dn + b * psi) * mms.g(t)
                 sh = g.side_shape(k)
                 f = getattr(BC, side)
-                f.a, f.b, f.c = (a * lam).reshape(sh), (b * lam).reshape(sh), (c * lam).reshape(sh)
+                f.a, f.b, f.c = (a * lam * lunit).reshape(sh), (b * lam).reshape(sh), (c * lam).reshape(sh)
     qf = []
     Darr, uarr = [], []
     for k in range(nd):
         q = list(qc)
         q[k] = _bc(g.faces[k], k, nd)
-        Darr.append(np.broadcast_to(mms.D(q), g.face_shape(k)).copy())
-        uarr.append(np.broadcast_to(mms.u(k, q), g.face_shape(k)).copy())
+        Darr.append(np.broadcast_to(mms.D(q), g.face_shape(k)).copy() * lunit ** 2)
+        uarr.append(np.broadcast_to(mms.u(k, q), g.face_shape(k)).copy() * lunit)
     mms.numdiff = {'n': list(n), 'kappa': list(kappa)} if 'upwind' in tset else None
     Lpsi = np.broadcast_to(mms.spatial(qc, adv, src), g.dims)
     psi_c = np.broadcast_to(mms.psi(qc), g.dims)
-    terms0 = [-pf.diffusionTerm(gen.facevar(pf, m, Darr))]
-    if 'central' in tset:
-        terms0.append(pf.convectionTerm(gen.facevar(pf, m, uarr)))
-    if 'upwind' in tset:
-        terms0.append(pf.convectionUpwindTerm(gen.facevar(pf, m, uarr)))
-    if src:
-        terms0.append(pf.linearSourceTerm(pf.CellVariable(m, np.broadcast_to(mms.beta(qc), g.dims).copy())))
+    terms0 = []
+    for which in (('adv', 'src', 'diff') if order == 'adv-first' else ('diff', 'adv', 'src')):
+        if which == 'diff':
+            terms0.append(-pf.diffusionTerm(gen.facevar(pf, m, Darr)))
+        elif which == 'adv':
+            if 'central' in tset:
+                terms0.append(pf.convectionTerm(gen.facevar(pf, m, uarr)))
+            if 'upwind' in tset:
+                terms0.append(pf.convectionUpwindTerm(gen.facevar(pf, m, uarr)))
+        elif src:
+            terms0.append(pf.linearSourceTerm(pf.CellVariable(m, np.broadcast_to(mms.beta(qc), g.dims).copy())))
     V = g.vol_exact()
     with np.errstate(all='ignore'):
         if tmode == 'steady':
@@ -293,7 +299,7 @@ def run_case(case):
         bckinds[SIDES[0][1]] = ('D', 0.0, 1.0)
     errs = []
     for mult in (1, 2, 4):
-        r = solve_once(cls, mms, ext, [n0 * mult] * nd, kappa, bckinds, tset, tmode, lam)
+        r = solve_once(cls, mms, ext, [n0 * mult] * nd, kappa, bckinds, tset, tmode, lam, lunit=float(case.get('lunit') or 1.0), order=case.get('order', 'diff-first'))
         if r is None:
             return {'verdict': 'inconclusive', 'key': 'singular', 'msg': 'non-finite solution', 'nontrivial': False, 'cov': {}}
         errs.append(r)
@@ -304,8 +310,9 @@ def run_case(case):
     # theory (pre-asymptotic cancellation); only the total reduction over two refinements is required there
     need_order, need_red = (None, 2.5) if first_order else (1.4, 5.0)
     bcv = ''.join(case['bc'][:2 * nd])
-    key = '%s/%s/%s/%s/%s/%s/%s' % (cls, spacing, bcv, tset, tmode, case.get('usign'), case.get('pe'))
-    cov = {'cases:%s' % cls: 1, 'tset:%s' % tset: 1, 'tmode:%s' % tmode: 1, 'spacing:%s' % spacing: 1, 'solves': 3}
+    key = '%s/%s/%s/%s/%s/%s/%s/%s/%s' % (cls, spacing, bcv, tset, tmode, case.get('usign'), case.get('pe'), case.get('lunit'), case.get('order'))
+    cov = {'cases:%s' % cls: 1, 'tset:%s' % tset: 1, 'tmode:%s' % tmode: 1, 'spacing:%s' % spacing: 1, 'solves': 3,
+           'order:%s' % case.get('order', 'diff-first'): 1, 'length_unit:%s' % ('1' if not case.get('lunit') else ('small' if case['lunit'] < 1 else 'large')): 1}
     for ch in set(bcv):
         cov['bc:' + ch] = 1
     sample = {'cls': cls, 'spacing': spacing, 'bc': bcv, 'terms': tset, 'time': tmode, 'n': [n0, 2 * n0, 4 * n0], 'err_inf': einf, 'err_l2': el2}
@@ -386,7 +393,11 @@ def plan(tier, seed):
             n0 = None
             if nd == 3 and tmode != 'steady':
                 n0 = 4
-            cases.append({'cls': cls, 'spacing': spacing, 'bc': list(bc), 'tset': tset, 'tmode': tmode, 'n0': n0, 'usign': usign, 'pe': pe, 'seed': [seed, 2, ci, i]})
+            # the same problems in nanometre / megametre units (every third / seventh case) and with the advection matrix built
+            # before the diffusion matrix on the shared mesh (every second case)
+            lunit = [None, None, 1e-8, None, None, None, 1e6][i % 7] if tier == 'quick' else [None, 1e-8, None, 3e-10, 1e6][i % 5]
+            cases.append({'cls': cls, 'spacing': spacing, 'bc': list(bc), 'tset': tset, 'tmode': tmode, 'n0': n0, 'usign': usign, 'pe': pe, 'seed': [seed, 2, ci, i],
+                          'lunit': lunit, 'order': 'adv-first' if i % 2 else 'diff-first'})
             i += 1
     # one case per chunk for the 3-D classes (cost), a few per chunk otherwise
     chunks = []
@@ -404,7 +415,7 @@ def floors(agg, tier):
     for cls in CLASSES:
         if agg['cov'].get('cases:' + cls, 0) < 4:
             out.append('cases:%s < 4' % cls)
-    for k in ('bc:D', 'bc:N', 'bc:R', 'spacing:uniform', 'spacing:graded', 'tset:D', 'tset:D+central', 'tset:D+src', 'tmode:steady'):
+    for k in ('length_unit:small', 'length_unit:large', 'order:adv-first', 'order:diff-first', 'bc:D', 'bc:N', 'bc:R', 'spacing:uniform', 'spacing:graded', 'tset:D', 'tset:D+central', 'tset:D+src', 'tmode:steady'):
         if agg['cov'].get(k, 0) < 3:
             out.append('%s < 3' % k)
     if agg['cov'].get('tmode:dt~h2', 0) + agg['cov'].get('tmode:dt~h', 0) < 3:
